@@ -210,28 +210,25 @@ def digitsVal : List Nat → Nat → Option Nat
   | [], acc => some acc
   | b :: bs, acc => if 48 ≤ b ∧ b ≤ 57 then digitsVal bs (acc * 10 + (b - 48)) else none
 
-/-- `uN::from_str`: optional single `+`, at least one digit, value `≤ max`. -/
-def parseUnsigned (max : Nat) (bs : List Nat) : Option Nat :=
-  let ds := match bs with
-    | 43 :: rest => rest
-    | _ => bs
+/-- A non-empty run of ASCII digits whose value is at most `max`. -/
+def parseDigits (max : Nat) (ds : List Nat) : Option Nat :=
   if ds.isEmpty then none
   else match digitsVal ds 0 with
     | some n => if n ≤ max then some n else none
     | none => none
 
+def stripPlus : List Nat → List Nat
+  | 43 :: rest => rest
+  | bs => bs
+
+/-- `uN::from_str`: optional single `+`, at least one digit, value `≤ max`. -/
+def parseUnsigned (max : Nat) (bs : List Nat) : Option Nat := parseDigits max (stripPlus bs)
+
 /-- `iN::from_str` for an `N = bits`-bit type: optional `+` or `-`, digits, range check. -/
 def parseSigned (bits : Nat) (bs : List Nat) : Option Int :=
   match bs with
-  | 45 :: rest =>
-    if rest.isEmpty then none
-    else match digitsVal rest 0 with
-      | some n => if n ≤ 2 ^ (bits - 1) then some (-(n : Int)) else none
-      | none => none
-  | _ =>
-    match parseUnsigned (2 ^ (bits - 1) - 1) bs with
-    | some n => some (n : Int)
-    | none => none
+  | 45 :: rest => (parseDigits (2 ^ (bits - 1)) rest).map (fun n => -(n : Int))
+  | _ => (parseUnsigned (2 ^ (bits - 1) - 1) bs).map (fun n => (n : Int))
 
 /-- `bool::from_str`. -/
 def parseBool (bs : List Nat) : Option Bool :=
@@ -408,20 +405,22 @@ def pathWalk (fields : List Field) :
         | .ok x => pathWalk fields ps (acc ++ [(k, x)])
         | .error e => .error e
 
-/-- After the loop: fields in declaration order; absent `Option` ⇒ `None`, absent defaulted
-    `Vec` ⇒ empty, any other absent field ⇒ `missing field`. -/
+/-- After the loop, one field: absent `Option` ⇒ `None`, absent defaulted `Vec` ⇒ empty, any other
+    absent field ⇒ `missing field`. -/
+def finishOne (acc : List (List Nat × Val)) (f : Field) : Except Err Val :=
+  match lookup f.name acc with
+  | some v => .ok v
+  | none =>
+    match f.ty with
+    | .opt _ => .ok .none
+    | .vecDefault _ => .ok (.seq [])
+    | _ => .error (.missingField f.name)
+
+/-- After the loop: fields in declaration order, first failure wins. -/
 def finishFields : List Field → List (List Nat × Val) → Except Err (List (List Nat × Val))
   | [], _ => .ok []
   | f :: fs, acc =>
-    let here : Except Err Val :=
-      match lookup f.name acc with
-      | some v => .ok v
-      | none =>
-        match f.ty with
-        | .opt _ => .ok .none
-        | .vecDefault _ => .ok (.seq [])
-        | _ => .error (.missingField f.name)
-    match here with
+    match finishOne acc f with
     | .error e => .error e
     | .ok v =>
       match finishFields fs acc with
@@ -537,5 +536,48 @@ def queryRequest (fields : List Field) (q : List Nat) : Except Err (List (List N
   match uriQuery q with
   | none => .error .badUri
   | some q' => queryExtract fields q'
+
+/-! ## Specification side (what the property demands; used by the theorems, not by the driver) -/
+
+/-- Path parameters, by name: the field's value is the parse of THE parameter carrying its name
+    (decoded once), independent of the position of that parameter in the URL. -/
+def pathFieldSpec (dps : List (List Nat × List Nat × Bool)) (f : Field) : Except Err Val :=
+  match lookup f.name dps with
+  | some (v, owned) => pathField f.name f.ty v owned
+  | none =>
+    match f.ty with
+    | .opt _ => .ok .none
+    | .vecDefault _ => .ok (.seq [])
+    | _ => .error (.missingField f.name)
+
+/-- All fields, by name; `none` as soon as one field has no acceptable value. -/
+def pathSpec (dps : List (List Nat × List Nat × Bool)) : List Field → Option (List (List Nat × Val))
+  | [] => some []
+  | f :: fs =>
+    match pathFieldSpec dps f, pathSpec dps fs with
+    | .ok v, some r => some ((f.name, v) :: r)
+    | _, _ => none
+
+/-- All occurrences of key `k`, in input order. -/
+def occurrences (k : List Nat) : List (List Nat × List Nat × Bool) → List (List Nat × Bool)
+  | [] => []
+  | (k', v, o) :: rest => if k' = k then (v, o) :: occurrences k rest else occurrences k rest
+
+/-- Query/form parameters, by name: the field sees exactly the occurrences of its own key. -/
+def formFieldSpec (ps : List (List Nat × List Nat × Bool)) (f : Field) : Except Err Val :=
+  match occurrences f.name ps with
+  | [] =>
+    match f.ty with
+    | .opt _ => .ok .none
+    | .vecDefault _ => .ok (.seq [])
+    | _ => .error (.missingField f.name)
+  | vs => formField f.name f.ty vs
+
+def formSpec (ps : List (List Nat × List Nat × Bool)) : List Field → Option (List (List Nat × Val))
+  | [] => some []
+  | f :: fs =>
+    match formFieldSpec ps f, formSpec ps fs with
+    | .ok v, some r => some ((f.name, v) :: r)
+    | _, _ => none
 
 end Pxv.ReqData
